@@ -2160,10 +2160,28 @@ func (r *Raft) isSingleServerCluster() bool {
 }
 
 // pendingConfigurationChange returns true if the current configuration
-// has not been committed or a membership change that was submitted to
-// this node has not been resolved yet.
+// has not been committed, a membership change that was submitted to
+// this node has not been resolved yet, or the log contains a configuration
+// that has not been applied yet.
 func (r *Raft) pendingConfigurationChange() bool {
-	return r.committedConfiguration == nil ||
+	if r.committedConfiguration == nil ||
 		r.committedConfiguration.Index != r.configuration.Index ||
-		r.configurationResponseCh != nil
+		r.configurationResponseCh != nil {
+		return true
+	}
+
+	// A configuration that is in the log but has not been applied yet is pending too, even
+	// if it is committed: this node only adopts a configuration when it applies the entry,
+	// so a new configuration would be derived from an outdated one.
+	for index := r.lastApplied + 1; index <= r.log.LastIndex(); index++ {
+		entry, err := r.log.GetEntry(index)
+		if err != nil {
+			r.logger.Fatalf("failed to get entry from log: error = %v", err)
+		}
+		if entry.EntryType == ConfigurationEntry {
+			return true
+		}
+	}
+
+	return false
 }
